@@ -98,6 +98,15 @@ class Sink:
         self.fail_at = fail_at
 
 
+class BufW:
+    """std::io::BufWriter over a sink: what is written stays pending until flush / into_inner / drop (capacity is not modelled:
+    a write never reaches the inner writer early). Drop writes the pending text and ignores the result, as std does."""
+
+    def __init__(self, inner):
+        self.inner = inner
+        self.pending = []
+
+
 class FmtArg:
     def __init__(self, kind, ref):
         self.kind = kind
@@ -842,6 +851,15 @@ class Machine:
                     return z3.Not(a)
             if rv[1] == 'Neg' and isinstance(a, int):
                 return -a
+            if rv[1] == 'PtrMetadata':
+                # length of a slice / str behind a (fat) pointer
+                v = deref(a)
+                if isinstance(v, RString):
+                    v = v.s
+                if isinstance(v, (str, SymVal)):
+                    return self.smap(lambda t: len(t.encode()), v)
+                if isinstance(v, (list, bytes)):
+                    return len(v)
             raise Unsupported('unop %s on %r' % (rv[1], a))
         if k == 'cast':
             v = self.operand(fr, rv[1])
@@ -1127,6 +1145,12 @@ class Machine:
                     raise Panic('diverging call ' + callee[:80], body.name)
                 bb = t[4]
             elif k == 'drop':
+                try:
+                    dv = deref(self.place_ref(fr, t[1]).get())
+                except Exception:
+                    dv = None
+                if isinstance(dv, BufW) and dv.pending:
+                    self.model('BufWriter::drop', [dv])
                 bb = t[2]
             elif k == 'assert':
                 v = self.operand(fr, t[1])
